@@ -657,6 +657,18 @@ class Translator:
         if args is not None and base in self.templ:
             cands = [d for (a, d) in self.templ[base] if a == args]
             if not cands:
+                # a non-type argument printed as an enumerator name ('as_type<nmtools::index::VERTICAL>'): clang's JSON records
+                # only its integer value for the specialization
+                ev = self._enumerator_values()
+                eargs = [str(ev[a]) if a in ev else a for a in args]
+                if eargs != args:
+                    cands = [d for (a, d) in self.templ[base] if a == eargs]
+                    if len(cands) > 1:
+                        # same template, same values, different non-type argument TYPES (enum vs integer) cannot be told apart in
+                        # the JSON; harmless only when every candidate is an empty record (identical C layout): take the first
+                        cts = [self.record_ct(d, fctx) for d in cands]
+                        if all(self.record_is_empty(c) for c in cts): return cts[0]
+            if not cands:
                 cands = [d for (a, d) in self.templ[base] if a[:len(args)] == args]
             if not cands:
                 # template-template arguments have no name in clang's JSON (recorded as '{"kind": "TemplateArgument"}'):
@@ -835,6 +847,32 @@ class Translator:
             if cur is anc or cur.get('id') == anc.get('id'): return True
             cur = self.ast.par(cur)
         return False
+
+    def _enumerator_values(self):
+        """{qualified enumerator name (both 'ns::Enum::K' and, for unscoped enums, 'ns::K'): integer value}"""
+        if hasattr(self, '_enumvals'): return self._enumvals
+        def find_val(x):
+            if 'value' in x and x.get('kind') in ('ConstantExpr', 'IntegerLiteral'): return x['value']
+            for c in x.get('inner', []) or []:
+                v = find_val(c)
+                if v is not None: return v
+            return None
+        out = {}
+        for q, d in self.enums.items():
+            val = -1
+            scope = q.rsplit('::', 1)[0] if '::' in q else ''
+            for c in d.get('inner', []) or []:
+                if c.get('kind') != 'EnumConstantDecl': continue
+                vv = find_val(c)      # ConstantExpr carries the evaluated (signed) value of the initialiser
+                try:
+                    val = int(vv) if vv is not None else val + 1
+                except (TypeError, ValueError):
+                    break
+                out[q + '::' + c.get('name', '')] = val
+                if not d.get('scopedEnumTag'):
+                    out[(scope + '::' if scope else '') + c.get('name', '')] = val
+        self._enumvals = out
+        return out
 
     def enum_ct(self, decl):
         under = decl.get('fixedUnderlyingType', {}).get('qualType')
@@ -2455,6 +2493,11 @@ class Translator:
             ct = self.ctype(core.get('type'), fctx, core)
             items = [c for c in core.get('inner', []) or []]
             if ct.kind == 'struct' and ct.model == 'array':
+                if len(items) == 1:
+                    # semantic form std::array<T,N>{a, b}: one inner InitListExpr of type T[N] (already one brace level)
+                    ic = self.strip_wrappers(items[0])
+                    if ic.get('kind') == 'InitListExpr' and any(re.search(r'\[\d+\]$', (ic.get('type', {}).get(tk) or '').strip()) for tk in ('qualType', 'desugaredQualType')):
+                        return '{%s}' % self.initializer(items[0], fctx)
                 return '{{%s}}' % ', '.join(self.initializer(c, fctx) for c in items) if items else '{0}'
             if ct.kind == 'struct' and ct.model:
                 return self.ex(core, fctx)
